@@ -81,6 +81,10 @@ class ClockTime(_HHMMSSTimeExpression):
     """Converts current time code to seconds"""
     return super().to_seconds() + self._milliseconds / 1000.0
 
+  def to_temporal_offset(self) -> Fraction:
+    """Converts current time code into a second-based fraction"""
+    return Fraction((self._hours * 3600 + self._minutes * 60 + self._seconds) * 1000 + self._milliseconds, 1000)
+
   @staticmethod
   def parse(time_code: str) -> ClockTime:
     """Reads the time code string and converts to a ClockTime instance"""
